@@ -22,22 +22,22 @@ CHECKS = {
    "7.3"),
  "C12": (True, "velocity+nodevel", "model_checking",
    "explicit-state search over the real VelocityControl (closes per config) and bounded exhaustive histories of approvals, clock advances and restarts on a real node, against a sliding-window oracle",
-   "Component: for limits {0, 100, 2^64-2}, 1-4 buckets and the three interval types, every sequence of insert(now+dt, amount) over bucket-edge time deltas and limit-edge amounts up to the depth bound / state closure, with the sum of approved amounts in any (N-1)-bucket window compared with the limit in u128; plus every (first spec, second spec) pair of five specs x update / repeated update / update + state round trip x three inserts at the new geometry's edges (a real change of spec may forget the history, anything else may not). Node: every history of <= 5 (7) letters (keysend / invoice / on-chain fee at limit edges, clock +1/+11/+12 buckets, restart, the most recent request presented again unchanged, reload of the unchanged policy) on a real node with hourly limits; the same oracle on the log of approvals, across restarts.",
+   "Component: for limits {0, 100, 2^64-2}, 1-4 buckets and the three interval types, every sequence of insert(now+dt, amount) over bucket-edge time deltas and limit-edge amounts up to the depth bound / state closure, with the sum of approved amounts in any (N-1)-bucket window compared with the limit in u128; plus every (first spec, second spec) pair of five specs x update / repeated update / update + state round trip x three inserts at the new geometry's edges (a real change of spec may forget the history, anything else may not). Node: every history of <= 5 (7) letters (keysend / invoice / on-chain fee at limit edges, clock +1/+11/+12 buckets, restart, the most recent request presented again unchanged, reload of the unchanged policy) on a real node with hourly limits (under the simple and the chain-aware validator factory); the same oracle on the log of approvals, across restarts.",
    "ManualClock; non-decreasing time (as in the statement).",
    "5.3"),
  "C15": (True, "nodemc", "model_checking",
    "bounded exhaustive histories of open/new/forget/heartbeat/block macro-steps/disconnect/restart on a real node with ghost predicates",
-   "Every history of <= 5 (7) letters in nine scenarios (two parts of one payment with identical output scripts of which one stays unswept, life cycle from nothing, mutual close, funding double-spend, unilateral close with HTLC sweeps, all outputs swept, only the HTLC outputs swept, three channel ids created / forgotten in any order, a prunable channel with a permanent id; the unilateral ones for static-remotekey and anchors channels and for the holder's and the counterparty's commitment), over the plain and the cloud store: NewChannel, ForgetChannel, GetHeartbeat, blocks carrying funding / double-spend / mutual close / sweeps, macro-steps of 1, 98 and 99 empty blocks (straddling the 100-block depth), disconnects and restarts; after every letter each ready channel must be present live and in the store unless a forget was requested and the close is buried >= 100 on the harness's own copy of the best chain; a NewChannel at or below a forgotten id must fail.",
+   "Every history of <= 5 (7) letters in ten scenarios (a mutual close that was reorganised out, two parts of one payment with identical output scripts of which one stays unswept, life cycle from nothing, mutual close, funding double-spend, unilateral close with HTLC sweeps, all outputs swept, only the HTLC outputs swept, three channel ids created / forgotten in any order, a prunable channel with a permanent id; the unilateral ones for static-remotekey and anchors channels and for the holder's and the counterparty's commitment), over the plain and the cloud store, compact and streamed delivery: NewChannel, ForgetChannel, GetHeartbeat, blocks carrying funding / double-spend / mutual close / sweeps, macro-steps of 1, 98 and 99 empty blocks (straddling the 100-block depth), disconnects and restarts; after every letter each ready channel must be present live and in the store unless a forget was requested and the close is buried >= 100 on the harness's own copy of the best chain; a NewChannel at or below a forgotten id must fail.",
    "Depth-bounded (not closed): the bounded space of histories is covered completely.",
    "6.3"),
  "C13": (True, "chain13", "model_checking",
    "explicit-state BFS over add/remove requests (one defect per request) on the real tracker of a real node, independent accept/reject prediction, atomicity + follow-up probe",
-   "All sequences of valid and single-defect add/remove requests (wrong previous hash, insufficient work, changed bits, proof for another block, wrong filter header / height in the attestation, untrusted key, too few or duplicated oracles, forged attestation signature, omitted spend, non-streamed full-block proof; wrong previous header / filter header on removal) over blocks that are empty, confirm the watched funding txid or spend a watched outpoint, and of otherwise valid blocks claiming a target 2, 4 or 8 times harder / easier than the tip's or the network maximum, on and off a retarget boundary, with 0-4 trusted oracles, compact and streamed delivery and restarts, until closure. Accepting a defective request, changing any state on rejection, or failing the correct request afterwards is a violation.",
+   "All sequences of valid and single-defect add/remove requests (wrong previous hash, insufficient work, changed bits, proof for another block, wrong filter header / height in the attestation, untrusted key, too few or duplicated oracles, forged attestation signature, omitted spend, non-streamed full-block proof; wrong previous header / filter header / all-zero filter header on removal; also with deep reorganisations allowed) over blocks that are empty, confirm the watched funding txid or spend a watched outpoint, and of otherwise valid blocks claiming a target 2, 4 or 8 times harder / easier than the tip's or the network maximum, on and off a retarget boundary, with 0-4 trusted oracles, compact and streamed delivery and restarts, until closure. Accepting a defective request, changing any state on rejection, or failing the correct request afterwards is a violation.",
    "Real regtest headers and txoo proofs built by the harness; chain of <= 3 (4) blocks above genesis, above a filled header window, or above a checkpoint next to a retarget boundary on a tip 1-64 times harder than the network maximum. The retarget rule is the one the tracker documents (at most a factor of four per boundary, never above the network maximum); timestamps are not part of it.",
    "6.1"),
  "C14": (True, "chainmc", "model_checking",
    "explicit-state BFS over connect/disconnect paths through AddBlock/RemoveBlock/BlockChunk on a real node; differential oracle against a fresh signer that connects only the best chain",
-   "Every connect/disconnect path (also from a base in which the commitment, the main sweep and both first-level HTLC spends are already confirmed; blocks = every UTXO-valid ordered subset of <= 2 (3) menu transactions: funding with two inputs, two double-spends, mutual close, holder / counterparty / revoked commitment, sweep, first- and second-level HTLC spends) with chains of <= 3 (4) blocks, compact and streamed delivery, closes; after every transition the monitor state, chain state, listen slot and header window must equal those of a fresh signer fed only the surviving chain; a panic is a violation.",
+   "Every connect/disconnect path (also from a base in which the commitment, the main sweep and both first-level HTLC spends are already confirmed; blocks = every UTXO-valid ordered subset of <= 2 (3) menu transactions: funding with two inputs, two double-spends, mutual close, holder / counterparty / revoked commitment, sweep, first- and second-level HTLC spends) with chains of <= 3 (4) blocks, compact and streamed delivery (also mixed: channel set up in the middle of a streamed block, reference replay delivered compact), closes; after every transition the monitor state, chain state, listen slot and header window must equal those of a fresh signer fed only the surviving chain; a panic is a violation.",
    "Channel prepared through the public API at commitment 1 on both sides with one offered and one received HTLC (preimage known).",
    "6.2"),
  "C01": (True, "chanfsm", "model_checking",
@@ -62,7 +62,7 @@ CHECKS = {
    "5.1"),
  "C11": (True, "history-engines", "fault_enumeration",
    "durability monitor: after every request of every explored history a second signer is restored from a deep copy of the store and compared with the live one",
-   "One crash point after each request of each explored history and of each C05 / C07 / C08 grid case (accepted or refused): Node::restore_node over a copy of the store, then field-by-field comparison of every channel (setup, enforcement state), tracker, allowlist, invoices and high-water mark; a restore that panics is a violation. Over the cloud store the crash is also placed between prepare and commit of every request (the reply is then never sent, and the restored signer must equal the state before the request).",
+   "One crash point after each request of each explored history and of each C05 / C07 / C08 grid case (accepted or refused): Node::restore_node over a copy of the store, then field-by-field comparison of every channel (setup, enforcement state), tracker, allowlist, invoices and high-water mark; a restore that panics is a violation. Under the composite BackupPersister the signer is also restored from the backup store alone. Over the cloud store the crash is also placed between prepare and commit of every request (the reply is then never sent, and the restored signer must equal the state before the request).",
    "Crash points are between requests, not inside a store write.",
    "5.2"),
  "C16": (True, "kvvmc", "model_checking",
